@@ -19,9 +19,19 @@ import (
 type ncue struct {
 	S, E  int64 // ns
 	Lines []string
+	K     string // the cue's text as the source's reader returns it (what Unfragment compares), when known
 }
 
 func (c ncue) text() string { return strings.Join(c.Lines, "\n") }
+
+// key is the text identity Unfragment goes by: the statement disregards inter-run white space when the destination's
+// texts are compared, the operation itself compares the texts as they were read
+func (c ncue) key() string {
+	if c.K != "" {
+		return c.K
+	}
+	return c.text()
+}
 
 var c07Words = []string{"Hello", "world", "yes", "no", "Stop", "Go", "fine", "ok", "Bob", "Eve", "one", "two", "3", "42", "a.b", "it's", "end.", "What?", "Run!"}
 var c07WordsLatin = []string{"café", "Ünder", "señor", "naïve", "Åse", "über"}
@@ -49,6 +59,9 @@ func c07GenNeutral(r *fw.Rand, src, dst string, contiguous bool) []ncue {
 	}
 	var out []ncue
 	t := int64(r.Intn(50)) * 200e6
+	if src != "ts" && src != "stl" && r.P(1, 6) {
+		t += int64(r.Intn(12*3600*5)) * 200e6 // a programme that starts hours into the tape
+	}
 	for k := 0; k < n; k++ {
 		if !contiguous && !r.P(1, 3) {
 			t += int64(r.Intn(40)) * 200e6
@@ -151,7 +164,27 @@ func c07RenderSource(r *fw.Rand, src string, cues []ncue) (data []byte, stlOpen 
 				s := msv / 1000
 				return ttmlTime{Expr: fmt.Sprintf("%s:%s:%s.%03d", pad2(s/3600), pad2(s/60%60), pad2(s%60), msv%1000), Val: ratNs(ns, 1), Exact: true}
 			}
-			tc.Begin, tc.End = clock(c.S), clock(c.E)
+			// the same instant in any of the time expression forms that can say it exactly
+			expr := func(ns int64) ttmlTime {
+				msv := ns / 1e6
+				t := clock(ns)
+				switch r.Intn(6) {
+				case 0:
+					if m.TickRate > 0 && ns%1e9*m.TickRate%1e9 == 0 && ns > 0 {
+						t.Expr = fmt.Sprintf("%dt", ns/1e9*m.TickRate+ns%1e9*m.TickRate/1e9)
+					}
+				case 1:
+					t.Expr = fmt.Sprintf("%d.%03ds", msv/1000, msv%1000)
+				case 2:
+					t.Expr = fmt.Sprintf("%dms", msv)
+				case 3:
+					if m.FrameRate > 0 && ns%1e9*m.FrameRate%1e9 == 0 {
+						t.Expr = fmt.Sprintf("%df", ns/1e9*m.FrameRate+ns%1e9*m.FrameRate/1e9)
+					}
+				}
+				return t
+			}
+			tc.Begin, tc.End = expr(c.S), expr(c.E)
 			if len(m.Styles) > 0 && r.Bool() {
 				tc.Style = m.Styles[r.Intn(len(m.Styles))].ID
 			}
@@ -363,10 +396,10 @@ func c07ApplySpec(cues []ncue, other []ncue, op c07Op) []ncue {
 		for _, c := range cues {
 			s := c.S
 			for b := (c.S/op.D + 1) * op.D; b < c.E; b += op.D {
-				out = append(out, ncue{s, b, c.Lines})
+				out = append(out, ncue{s, b, c.Lines, c.K})
 				s = b
 			}
-			out = append(out, ncue{s, c.E, c.Lines})
+			out = append(out, ncue{s, c.E, c.Lines, c.K})
 		}
 		sort.SliceStable(out, func(i, j int) bool { return out[i].S < out[j].S })
 		return out
@@ -378,7 +411,7 @@ func c07ApplySpec(cues []ncue, other []ncue, op c07Op) []ncue {
 		outer:
 			for i := 0; i < len(out); i++ {
 				for j := i + 1; j < len(out); j++ {
-					if out[i].text() == out[j].text() && out[i].E >= out[j].S {
+					if out[i].key() == out[j].key() && out[i].E >= out[j].S {
 						if out[j].E > out[i].E {
 							out[i].E = out[j].E
 						}
@@ -478,6 +511,20 @@ func c07Run(c *fw.Ctx) fw.Outcome {
 	os.WriteFile(in, data, 0o644)
 	os.WriteFile(in2, otherData, 0o644)
 	out = outPath(r, "", out) // a fresh destination, or one that holds an earlier, much longer file
+	// the same words may come back from two source formats with different white space between their runs (which the
+	// statement disregards): whether two cues "have the same text" for Unfragment is decided on the texts as read
+	for _, l := range []struct {
+		path string
+		cs   []ncue
+	}{{in, cues}, {in2, other}} {
+		var sub *astisub.Subtitles
+		var err error
+		if p := guard(func() { sub, err = astisub.OpenFile(l.path) }); p == "" && err == nil && sub != nil && len(sub.Items) == len(l.cs) {
+			for k := range l.cs {
+				l.cs[k].K = sub.Items[k].String()
+			}
+		}
+	}
 	// operation sequence
 	var ops []c07Op
 	nops := r.Intn(5)
@@ -930,8 +977,10 @@ func init() {
 		Level:       "exploration",
 		Rule:        "case = (source format, destination format) cycling over all 7 x 6 pairs; a random start-ordered neutral cue list (1..6 cues on a 200 ms grid so that every format can express it exactly, overlaps, abutting cues, repeated texts, 1..2 lines) is rendered into a styled, metadata-bearing source document by the C01-C06 renderers (SRT runs with markup, WebVTT with regions/settings/voices/tags, TTML with styles/regions/attributes, SSA with styles/override blocks, STL at 25/30 fps with any display standard and programme-start offset, teletext TS with one page instance per cue), written to a file whose extension has random letter case, then converted through OpenFile + 0..4 operations (sync, fragment, unfragment, merge with a second document, optimize, order, linear correction last) + Write, or (every 7th round) through the CLI binary built from /repo (convert, sync, fragment, unfragment, merge, optimize, apply-linear-correction). Oracle: the composed executable specifications of C09-C15 applied to the neutral list, truncated to the destination's resolution (ms; cs for ssa/ass; frame for stl, +-1 ns), compared with the destination re-read through OpenFile: count, order, start, end, and text per line with all white space removed; an empty result must give the nothing-to-write error. The last 12 (120) cases put two subtitle pages in one stream and select each through Options.Teletext.Page and through the CLI's -p flag (convert, merge). distinct_nontrivial = distinct (document, destination, operations) cases.",
 		Assumptions: []string{"times are non-negative (negative results of a linear correction are not compared); texts are drawn from an alphabet every format involved can represent (ASCII words; a few Latin letters when teletext is not involved; no '$')", "linear correction is only used as the last operation (its 1 us tolerance would make the outcome of a later fragment ambiguous)"},
-		Cases:       func(tier string) int64 { return tierN(tier, 42*21, 42*2100) + tierN(tier, 30, 3000) + int64(len(c07SubCommands)) },
-		Anchors:     []string{"Open", "OpenFile", "Subtitles.Write", "astisub/main.go", "all readers and writers"},
-		Run:         c07Run,
+		Cases: func(tier string) int64 {
+			return tierN(tier, 42*21, 42*2100) + tierN(tier, 30, 3000) + int64(len(c07SubCommands))
+		},
+		Anchors: []string{"Open", "OpenFile", "Subtitles.Write", "astisub/main.go", "all readers and writers"},
+		Run:     c07Run,
 	})
 }
